@@ -19,6 +19,7 @@ SIMPLE = ['enbc', 'disbc', 'enter', 'exit', 'call_ret', 'call_raise']
 def expand(hist):
     """history -> per-op list of primitive items ('en', t) ('dis', t) ('obs', t) as the wrappers should issue them"""
     gens = {}   # (t, slot) -> [n, i, state]  state in new/suspended/done
+    cos = {}    # (t, slot) -> new / suspended / done: step-wise driven decorated coroutines (overlapping, any order of completion)
     out = []
     for (t, name, *args) in hist:
         items = []
@@ -59,6 +60,24 @@ def expand(hist):
                 g[2] = 'done'
         elif name == 'gen_drop':
             gens.pop((t, args[0]), None)
+        elif name == 'co_new':
+            if cos.get((t, args[0])) == 'suspended':
+                items += [('dis', t)]      # the coroutine that occupied the slot loses its last reference: closed at once, its bracket ends
+            cos[(t, args[0])] = 'new'
+        elif name == 'co_step':
+            st = cos.get((t, args[0]))
+            if st == 'new':
+                items += [('en', t), ('obs', t)]          # runs to its await and stays suspended inside the bracket
+                cos[(t, args[0])] = 'suspended'
+            elif st == 'suspended':
+                items += [('obs', t), ('dis', t)]
+                cos[(t, args[0])] = 'done'
+        elif name == 'co_close':
+            st = cos.get((t, args[0]))
+            if st == 'suspended':
+                items += [('dis', t)]
+            if st is not None:
+                cos[(t, args[0])] = 'done'
         elif name == 'coro_run':
             items += [('en', t), ('obs', t), ('obs', t), ('dis', t)]
         elif name == 'coro_abandon':
@@ -117,6 +136,7 @@ def gen_history(rng, cls):
     n = rng.below(36) + 4
     hist = []
     slots = {}
+    coslots = {}
     alive = list(range(nthreads))      # logical thread numbers; 0 is the main thread
     nxt = nthreads
     r2 = rng.fork('generations')
@@ -152,8 +172,15 @@ def gen_history(rng, cls):
                     del slots[(t, k)]
             else:
                 hist.append([t, 'call_ret'])
-        else:
+        elif r < 94:
             hist.append([t, rng.choice(['coro_run', 'coro_abandon'])])
+        else:
+            # decorated coroutines driven step by step: several may be in flight and finish in any order
+            k = rng.below(3)
+            if (t, k) not in coslots or rng.chance(1, 4):
+                coslots[(t, k)] = True
+                hist.append([t, 'co_new', k])
+            hist.append([t, rng.choice(['co_step', 'co_step', 'co_step', 'co_close']), k])
     return hist
 
 
